@@ -264,3 +264,66 @@ theorem erc20_src_tail (id : Ident) (d0 : Fungible) (t resp : Bytes) (h : ShortT
   rw [if_neg (by omega)]
 
 end Sygma.C01
+
+namespace Sygma.C01
+
+/-- Substrate deposit data followed by any trailing bytes: the recipient is what the length word delimits -/
+theorem sub_src_tail (id : Ident) (d0 : Fungible) (t : Bytes) (h : TailWF d0 t) :
+    subDeposit id (Src.fungible d0 ++ t) 0 = .ok ⟨id, .fungible, [.bytes (pad32 d0.amount), .bytes d0.recipient], none⟩ := by
+  obtain ⟨ha, hrl, ho, hmin⟩ := h
+  have h2 : d0.recipient.length < 2 ^ 256 := by omega
+  have hA : (pad32 d0.amount).length = 32 := pad32_length _ ha
+  have hN : (pad32 d0.recipient.length).length = 32 := pad32_length _ h2
+  generalize hcd : Src.fungible d0 ++ t = cd
+  have hshape : cd = pad32 d0.amount ++ (pad32 d0.recipient.length ++ (d0.recipient ++ t)) := by
+    rw [← hcd]; simp [Src.fungible, ho, Src.optTail]
+  have hL : cd.length = 64 + d0.recipient.length + t.length := by
+    rw [hshape]; simp [hA, hN]; omega
+  have e1 : cd.take 32 = pad32 d0.amount := by rw [hshape]; exact take_app hA
+  have e2 : cd.drop 32 = pad32 d0.recipient.length ++ (d0.recipient ++ t) := by rw [hshape]; exact drop_app hA
+  have e3 : cd.drop 64 = d0.recipient ++ t := by
+    have : cd.drop 64 = (cd.drop 32).drop 32 := by simp
+    rw [this, e2]; exact drop_app hN
+  unfold subDeposit
+  rw [if_neg (by simp), if_neg (by omega)]
+  simp only [e1, e2, take_app hN, int64Len_pad32 _ hrl]
+  rw [slice_eq (by omega) (by omega)]
+  simp only [e3, Nat.add_sub_cancel_left, take_app rfl]
+
+/-- ERC721 deposit data followed by any trailing bytes -/
+theorem nft_src_tail (id : Ident) (token : Nat) (r md t : Bytes) (h : NftWF token r md) :
+    erc721Deposit id (Src.nft token r md ++ t) = .ok ⟨id, .nonFungible, [.bytes (pad32 token), .bytes r, .bytes md], none⟩ := by
+  obtain ⟨ht, hr, hm⟩ := h
+  have hT : (pad32 token).length = 32 := pad32_length _ ht
+  have hN : (pad32 r.length).length = 32 := pad32_length _ (by omega)
+  have hM : (pad32 md.length).length = 32 := pad32_length _ (by omega)
+  generalize hcd : Src.nft token r md ++ t = cd
+  have hshape : cd = pad32 token ++ (pad32 r.length ++ (r ++ (pad32 md.length ++ (md ++ t)))) := by
+    rw [← hcd]; simp [Src.nft]
+  have hL : cd.length = 96 + r.length + md.length + t.length := by
+    rw [hshape]; simp [hT, hN, hM]; omega
+  have e1 : cd.take 32 = pad32 token := by rw [hshape]; exact take_app hT
+  have e2 : cd.drop 32 = pad32 r.length ++ (r ++ (pad32 md.length ++ (md ++ t))) := by rw [hshape]; exact drop_app hT
+  have e3 : cd.drop 64 = r ++ (pad32 md.length ++ (md ++ t)) := by
+    have : cd.drop 64 = (cd.drop 32).drop 32 := by simp
+    rw [this, e2]; exact drop_app hN
+  have e4 : cd.drop (64 + r.length) = pad32 md.length ++ (md ++ t) := by
+    rw [← List.drop_drop, e3]; exact drop_app rfl
+  have e5 : cd.drop (96 + r.length) = md ++ t := by
+    have : 96 + r.length = (64 + r.length) + 32 := by omega
+    rw [this, ← List.drop_drop, e4]; exact drop_app hM
+  unfold erc721Deposit
+  rw [if_neg (by omega)]
+  simp only [e1, e2, take_app hN, int64Len_pad32 _ hr]
+  rw [slice_eq (by omega) (by omega), slice_eq (by omega) (by omega)]
+  have hsub : 96 + r.length - (64 + r.length) = 32 := by omega
+  simp only [e3, e4, Nat.add_sub_cancel_left, take_app rfl, hsub, take_app hM, beToNat_pad32]
+  by_cases hz : md.length = 0
+  · have : md = [] := List.length_eq_zero_iff.1 hz
+    simp [this]
+  · rw [if_neg hz, int64Len_pad32 _ hm]
+    simp only []
+    rw [slice_eq (by omega) (by omega)]
+    simp only [e5, Nat.add_sub_cancel_left, take_app rfl]
+
+end Sygma.C01
